@@ -106,6 +106,8 @@ func intersect(a, b factSet) factSet {
 type Engine struct {
 	w         *World
 	fx        map[*ssa.Function]*fnCtx
+	okSums  map[sumKey]*predSummary
+	okBusy  map[sumKey]bool
 	sums      map[*ssa.Function]*predSummary
 	sumBusy   map[*ssa.Function]bool
 	singleSt  map[*ssa.Alloc]int // number of stores to a local cell (including in closures)
@@ -500,6 +502,22 @@ func (e *Engine) condFacts(v ssa.Value, pol bool) factSet {
 					}
 				} else {
 					fs.add(Fact{Kind: "nottype", K: k, T: ta.AssertedType})
+				}
+			}
+		}
+		// "value, ok := helper(x)": what the helper's ok result says about its arguments
+		if c, ok := v.Tuple.(*ssa.Call); ok {
+			if callee := c.Call.StaticCallee(); callee != nil && callee.Signature.Results().Len() > 1 {
+				if sum := e.summaryAt(callee, v.Index); sum != nil {
+					tmpl := sum.whenFalse
+					if pol {
+						tmpl = sum.whenTrue
+					}
+					for _, f := range tmpl {
+						if g, ok := e.substFact(f, callee, c.Call.Args); ok {
+							fs.add(g)
+						}
+					}
 				}
 			}
 		}
@@ -968,6 +986,94 @@ func (e *Engine) errSummary(fn *ssa.Function) []Fact {
 }
 
 func (e *Engine) summary(fn *ssa.Function) *predSummary {
+	if fn.Signature.Results().Len() != 1 {
+		return nil
+	}
+	return e.summaryAt(fn, 0)
+}
+
+// okSummaries: summaries of the boolean results of functions with several results ("value, ok"), per result index
+type sumKey struct {
+	fn  *ssa.Function
+	idx int
+}
+
+// summaryAt: what is known about the parameters when result idx of fn (a boolean, or for single-result
+// functions a string) is true / false / non-empty.
+func (e *Engine) summaryAt(fn *ssa.Function, idx int) *predSummary {
+	if idx != 0 || fn.Signature.Results().Len() != 1 {
+		if e.okSums == nil {
+			e.okSums = map[sumKey]*predSummary{}
+			e.okBusy = map[sumKey]bool{}
+		}
+		k := sumKey{fn, idx}
+		if s, ok := e.okSums[k]; ok {
+			return s
+		}
+		res := fn.Signature.Results()
+		if e.okBusy[k] || fn.Blocks == nil || !strings.HasPrefix(fnPkgPath(fn), modPath) || idx >= res.Len() || !isBasic(res.At(idx).Type(), types.Bool) {
+			return nil
+		}
+		e.okBusy[k] = true
+		defer delete(e.okBusy, k)
+		var accT, accF factSet
+		merge := func(acc *factSet, fs factSet) {
+			if *acc == nil {
+				cp := factSet{}
+				cp.add(fs.list()...)
+				*acc = cp
+			} else {
+				*acc = intersect(*acc, fs)
+			}
+		}
+		var visit func(v ssa.Value, at factSet, depth int)
+		visit = func(v ssa.Value, at factSet, depth int) {
+			if phi, ok := v.(*ssa.Phi); ok && depth < 4 {
+				for i, op := range phi.Edges {
+					visit(op, e.onEdge(phi.Block().Preds[i], phi.Block()), depth+1)
+				}
+				return
+			}
+			if c, ok := v.(*ssa.Const); ok && c.Value != nil && c.Value.Kind() == constant.Bool {
+				if constant.BoolVal(c.Value) {
+					merge(&accT, at)
+				} else {
+					merge(&accF, at)
+				}
+				return
+			}
+			ft := factSet{}
+			ft.add(at.list()...)
+			ft.add(e.condFacts(v, true).list()...)
+			merge(&accT, ft)
+			ff := factSet{}
+			ff.add(at.list()...)
+			ff.add(e.condFacts(v, false).list()...)
+			merge(&accF, ff)
+		}
+		for _, b := range fn.Blocks {
+			if len(b.Instrs) == 0 || b == fn.Recover {
+				continue
+			}
+			ret, ok := b.Instrs[len(b.Instrs)-1].(*ssa.Return)
+			if !ok || idx >= len(ret.Results) {
+				continue
+			}
+			visit(ret.Results[idx], e.holding(b), 0)
+		}
+		keep := func(acc factSet) []Fact {
+			var out []Fact
+			for _, f := range acc.list() {
+				if e.paramRooted(f, fn) {
+					out = append(out, f)
+				}
+			}
+			return out
+		}
+		sum := &predSummary{whenTrue: keep(accT), whenFalse: keep(accF)}
+		e.okSums[k] = sum
+		return sum
+	}
 	if s, ok := e.sums[fn]; ok {
 		return s
 	}
